@@ -30,7 +30,7 @@ def setup(ctx, label, tts, order=None, extra_mgr=False):
 OPS = ['and', 'xor', 'ite', 'quantify', 'apply_exists', 'apply_forall', 'let_bool', 'let_ref',
        'let_name', 'cube', 'var', 'copy', 'image', 'preimage', 'find_or_add', 'compose1',
        'quantify_levels', 'cofactor_levels', 'quantify_forall',
-       'compose_direct1', 'compose_direct2', 'rename_direct']
+       'compose_direct1', 'compose_direct2', 'rename_direct', 'cube_names']
 
 
 def run_one(ctx, opname, tts, k, natural=None):
@@ -103,6 +103,11 @@ def run_one(ctx, opname, tts, k, natural=None):
     elif opname == 'let_name':
         r = M.op('let_name', {0: 1, 1: 0, 2: 3}, u0)
         expect = T.rename(t0, n, {0: 1, 1: 0, 2: 3})
+    elif opname == 'cube_names':
+        # a conjunction of positive literals given as an iterable of names (the runner
+        # passes a one-shot iterator)
+        r = M.op('cube', {0: True, 1: True, 2: True, 3: True})
+        expect = T.var(0, n) & T.var(1, n) & T.var(2, n) & T.var(3, n)
     elif opname == 'cube':
         r = M.op('cube', {0: True, 1: False, 2: True, 3: True})
         expect = T.var(0, n) & T.neg(T.var(1, n), n) & T.var(2, n) & T.var(3, n)
